@@ -663,32 +663,48 @@ func ctxRecorderReset(r *Repo) (fields, assigned []string, err error) {
 	if fd == nil || fd.Body == nil || fd.Recv == nil || len(fd.Recv.List[0].Names) == 0 {
 		return nil, nil, fmt.Errorf("%s.reset not found", tn)
 	}
-	recv := fd.Recv.List[0].Names[0].Name
 	set := map[string]bool{}
-	ast.Inspect(fd.Body, func(n ast.Node) bool {
-		as, ok := n.(*ast.AssignStmt)
-		if !ok {
-			return true
+	var collect func(fd *ast.FuncDecl, depth int)
+	collect = func(fd *ast.FuncDecl, depth int) {
+		if fd == nil || fd.Body == nil || fd.Recv == nil || len(fd.Recv.List[0].Names) == 0 || depth > 2 {
+			return
 		}
-		for i, l := range as.Lhs {
-			if sel, ok := l.(*ast.SelectorExpr); ok {
-				if id, ok := sel.X.(*ast.Ident); ok && id.Name == recv {
-					set[sel.Sel.Name] = true
+		recv := fd.Recv.List[0].Names[0].Name
+		ast.Inspect(fd.Body, func(n ast.Node) bool {
+			// a helper method of the same type called on the receiver (r.init(w)): its assignments count
+			if call, ok := n.(*ast.CallExpr); ok {
+				if sel, ok := call.Fun.(*ast.SelectorExpr); ok {
+					if id, ok := sel.X.(*ast.Ident); ok && id.Name == recv {
+						collect(r.FuncDecl("context.go", tn, sel.Sel.Name), depth+1)
+					}
 				}
+				return true
 			}
-			// *r = T{…}: every field is (re)initialised
-			if star, ok := l.(*ast.StarExpr); ok && i < len(as.Rhs) {
-				if id, ok := star.X.(*ast.Ident); ok && id.Name == recv {
-					if _, ok := as.Rhs[i].(*ast.CompositeLit); ok {
-						for _, f := range fields {
-							set[f] = true
+			as, ok := n.(*ast.AssignStmt)
+			if !ok {
+				return true
+			}
+			for i, l := range as.Lhs {
+				if sel, ok := l.(*ast.SelectorExpr); ok {
+					if id, ok := sel.X.(*ast.Ident); ok && id.Name == recv {
+						set[sel.Sel.Name] = true
+					}
+				}
+				// *r = T{…}: every field is (re)initialised
+				if star, ok := l.(*ast.StarExpr); ok && i < len(as.Rhs) {
+					if id, ok := star.X.(*ast.Ident); ok && id.Name == recv {
+						if _, ok := as.Rhs[i].(*ast.CompositeLit); ok {
+							for _, f := range fields {
+								set[f] = true
+							}
 						}
 					}
 				}
 			}
-		}
-		return true
-	})
+			return true
+		})
+	}
+	collect(fd, 0)
 	for k := range set {
 		assigned = append(assigned, k)
 	}
